@@ -199,6 +199,14 @@ fn gbuilt() -> BoxedStrategy<BuiltCase> {
     ];
     (select(KNOWN_TYPES), ns, prop_oneof![4 => crate::chars::gtext1(), 1 => select(&["a:b", "a:b:c", ":", "n"][..]).prop_map(str::to_string)])
         .prop_map(|(ty, ns, name)| {
+            // now and then the name repeats the namespace (alone, or followed by the separator of either kind)
+            let name = match (name.len() + ns.len()) % 9 {
+                0 => ns.clone(),
+                1 => format!("{ns}:{name}"),
+                2 => format!("{ns}/{name}"),
+                3 => format!("{name}:{ns}"),
+                _ => name,
+            };
             let (ns, name) = match ty {
                 "golang" | "npm" => (ns, name.replace('/', "|")),
                 "maven" => (ns.replace(':', ";"), name),
